@@ -110,13 +110,23 @@ std::string symbolize_pc(void *pc)
 
 // ------------------------------------------------------------------ allocator wraps
 // decide(): 0 = proceed, 1 = fail.  Counts the allocation in its domain.
+static void trace_fail(void *pc, const char *dom)
+{
+    static int on = -1;
+    if (on < 0) on = getenv("VSIM_TRACE_ALLOC") != nullptr;
+    if (!on) return;
+    int depth = g_sim.in_lib;
+    g_sim.in_lib = 0;
+    fprintf(stderr, "injected %s allocation failure #%ld in %s\n", dom, dom[0] == 'y' ? g_sim.n_yaml : g_sim.n_vna, symbolize_pc(pc).c_str());
+    g_sim.in_lib = depth;
+}
 static inline int decide(void *pc, int *domain)
 {
     if (g_sim.in_lib <= 0) { *domain = -1; return 0; }
     if (is_yaml_pc(pc)) {
 	*domain = 1;
 	++g_sim.n_yaml; ++g_sim.total_yaml;
-	if (g_sim.fail_yaml && g_sim.n_yaml == g_sim.fail_yaml) { ++g_sim.fired_yaml; return 1; }
+	if (g_sim.fail_yaml && g_sim.n_yaml == g_sim.fail_yaml) { ++g_sim.fired_yaml; trace_fail(pc, "yaml"); return 1; }
 	return 0;
     }
     *domain = 0;
@@ -124,6 +134,7 @@ static inline int decide(void *pc, int *domain)
     if (g_sim.fail_vna && (g_sim.n_vna == g_sim.fail_vna ||
 		(g_sim.fail_vna_sticky && g_sim.n_vna > g_sim.fail_vna))) {
 	++g_sim.fired_vna;
+	trace_fail(pc, "vna");
 	return 1;
     }
     return 0;
